@@ -287,7 +287,7 @@ class Message(MessageBase):  # add _expired attr
     Adds _expired attr to the Message class.
     """
 
-    CANT_EXPIRE = -1  # sentinel value for fraction_expired
+    CANT_EXPIRE = float("-inf")  # sentinel value for fraction_expired (never a real fraction)
 
     HAS_EXPIRED = 2.0  # fraction_expired >= HAS_EXPIRED
     # .HAS_DIED = 1.0  # fraction_expired >= 1.0 (is expected lifespan)
@@ -314,7 +314,10 @@ class Message(MessageBase):  # add _expired attr
 
         def fraction_expired(lifespan: td) -> float:
             """Return the packet's age as fraction of its 'normal' life span."""
-            return (self._gwy._dt_now() - self.dtm - _TD_SECS_003) / lifespan
+            age = self._gwy._dt_now() - self.dtm - _TD_SECS_003
+            if not lifespan:  # zero-length lifespan, e.g. 1F09 with remaining_seconds == 0
+                return self.HAS_EXPIRED if age >= td(0) else 0.0
+            return age / lifespan
 
         # 1. Look for easy win...
         if self._fraction_expired is not None:
